@@ -8,7 +8,7 @@ let hist : (string, int) Hashtbl.t = Hashtbl.create 64
 let bump k = Hashtbl.replace hist k (1 + try Hashtbl.find hist k with Not_found -> 0)
 let samples : string list ref = ref []
 let seen : (string, unit) Hashtbl.t = Hashtbl.create 10007
-let bad = [n_of_int 6; n_of_int 7; n_of_int 9]
+let bad = [n_of_int 6; n_of_int 7; n_of_int 9; n_of_int 10]
 
 let parse_op (s : string) : mop option =
   let t = List.filter (fun x -> x <> "") (split_on ' ' s) in
